@@ -118,8 +118,25 @@ REGRESSION_DOCS = [
 ]
 
 
+# column groups written with omitted tags (the generator itself writes every tag).  They hit the residual of
+# 63d09b5 (known finding, fix pending as fixes/C03-20.diff); VERIF_C03_PENDING=20 includes them and lifts X12 to
+# validate a tree that has the fix.
+PENDING_20 = os.environ.get('VERIF_C03_PENDING') == '20'
+COLGROUP_OMITTED_DOCS = [
+    '<table><col><colgroup><col></table>', '<table><colgroup span=2><col><colgroup><col></table>',
+    '<table><colgroup><col><colgroup><col><tbody><tr><td>a</table>', '<table><col><col><colgroup span=2><colgroup><col></table>',
+    '<table><colgroup span=2><colgroup><col></table>', '<table><caption>c</caption><col> <colgroup><col><col></colgroup><tr><td>a</table>',
+    '<table><colgroup><col></colgroup> <colgroup><col></colgroup><!--c--><colgroup><col></colgroup></table>',
+    '<table><col><!--c--><colgroup><col></table>', '<table><colgroup></colgroup><colgroup><col></colgroup><col></table>',
+]
+
+
 def regression_cases(ctx):
     out = []
+    if PENDING_20:
+        for src in COLGROUP_OMITTED_DOCS:
+            for o in PAIRWISE8:
+                out.append(mk(src, o, True, 0, origin='regression'))
     for src, opts, frag, tmpl in REGRESSION_DOCS:
         for o in sorted(set([opts] + PAIRWISE8)):
             out.append(mk(src, o, frag, tmpl, origin='regression'))
@@ -599,7 +616,7 @@ def run(ctx):
     x12 = re.compile(r'<col(group)?(\s[^>]*)?>(\s|<!--.*?-->)*<colgroup>')
     outs = sorted(set((side[i], cases[i]['frag']) for i in range(n_tree)
                       if i not in bad1 and cases[i]['opts'] == 0 and side[i].encode() != bytes(cases[i]['src'])
-                      and not x12.search(side[i])))
+                      and (PENDING_20 or not x12.search(side[i]))))
     outs = vlib.sample(outs, 1500 if ctx.quick() else 30000, ctx.rnd)
     pass2 = []
     for j, (m, frag) in enumerate(outs):
